@@ -191,13 +191,10 @@ pub fn def(ctx: &Ctx) -> PropertyDef {
     let scenarios: Vec<Scenario> = programs()
         .into_iter()
         .map(|p| {
-            program_scenario(p, oracle(), move |_c| IlvCfg {
-                bounds: if quick { vec![0, 1] } else { vec![0, 1, 2] },
-                workers,
-                split_depth: 6,
-                time_cap_s: Some(if quick { 12.0 } else { 300.0 }),
-                max_executions: None,
-            })
+            {
+                let nthreads = p.threads.len();
+                program_scenario(p, oracle(), move |c| crate::harness::ilv::tier_cfg(c, nthreads))
+            }
         })
         .collect();
     PropertyDef {
